@@ -173,6 +173,7 @@ Record finrec := mkFin { f_calls : list callrec; f_ls : list lrec; f_panics : Z;
 
 Inductive c10case :=
 | KScript (nsenders : nat) (script : list (action * list Z)) (fin : finrec)
+| KFree (f : finrec)      (* free-running run: only the end-of-run record; times are ticks of a global counter *)
 | KPipe (sc : pipecase).
 
 (* ---------- the oracle ---------- *)
@@ -203,6 +204,7 @@ Definition script_ok (f : finrec) : bool :=
 Definition C10_ok (c : c10case) : bool :=
   match c with
   | KScript _ _ f => script_ok f
+  | KFree f => script_ok f
   | KPipe p => pipe_ok p
   end.
 
@@ -235,12 +237,17 @@ Definition fin_agrees (worlds : list jstate) (f : finrec) : bool :=
 Definition agrees (c : c10case) : bool :=
   match c with
   | KScript n script f => fin_agrees (replay [init_j n] script) f
+  | KFree f =>
+      (* the model's prediction for any run that ends with every listener cancelled: all Send
+         calls return, every consumer sees the close, no goroutine is left, nothing panics *)
+      forallb c_ret (f_calls f) && forallb r_closed (f_ls f) && (f_leaks f =? 0) && (f_panics f =? 0)
   | KPipe p => pipe_agrees p
   end.
 
 Definition known_class (c : c10case) : option Z :=
   match c with
   | KScript _ _ _ => None
+  | KFree _ => None
   | KPipe p => pipe_known p
   end.
 
